@@ -23,15 +23,17 @@ RULE_SEQ = ("one evaluation = one seeded plan (swarm configuration + operation l
             "non-trivial = the run reached a container state with >= 2 elements (or the world's stated equivalent)")
 
 check("C12", "exploration",
-      [dict(world="lists", mode=12, variants=V_SEQ, quick=80000, thorough=8000000)],
+      [dict(world="lists", mode=12, variants=V_SEQ, quick=80000, thorough=8000000),
+       dict(world="lists", mode=112, variants={"rel": 1.0}, quick=12, thorough=400)],
       RULE_SEQ, ["src/dlist.c", "include/cstl/dlist.h"],
       required_probes=["d_reverse_len0to5", "d_reverse_odd", "d_reverse_even", "d_swap_with_empty", "d_foreach_self_remove",
-                       "d_foreach_cancel", "d_concat_empty_src", "d_concat_empty_dst", "d_pop_empty", "d_find_absent"])
+                       "d_foreach_cancel", "d_concat_empty_src", "d_concat_empty_dst", "d_pop_empty", "d_find_absent", "d_swap_different_offsets", "comparator_reenters_library", "huge_sort", "huge_sort_2^20"])
 check("C13", "exploration",
-      [dict(world="lists", mode=13, variants=V_SEQ, quick=80000, thorough=8000000)],
+      [dict(world="lists", mode=13, variants=V_SEQ, quick=80000, thorough=8000000),
+       dict(world="lists", mode=113, variants={"rel": 1.0}, quick=12, thorough=400)],
       RULE_SEQ, ["src/slist.c", "include/cstl/slist.h"],
       required_probes=["s_pop_empty", "s_erase_last", "s_insert_after_tail", "s_swap_with_empty", "s_concat_empty_src",
-                       "s_concat_empty_dst", "s_reverse", "s_sort", "s_foreach_cancel"])
+                       "s_concat_empty_dst", "s_reverse", "s_sort", "s_foreach_cancel", "s_swap_different_offsets", "huge_sort", "huge_sort_2^20"])
 
 WORLD_INFO = {}
 
